@@ -15,9 +15,11 @@ import (
 	"fmt"
 	"io"
 	"os"
+	"runtime/debug"
 	"sort"
 	"strings"
 	"sync"
+	"sync/atomic"
 	"time"
 
 	pb "github.com/jamf/regatta/regattapb"
@@ -505,6 +507,7 @@ func recoverAndJudge(s *scenario, o *outcome, second int) (v verdict) {
 }
 
 func main() {
+	debug.SetGCPercent(40)
 	r := ev.Start("C04", "fault_enumeration")
 	r.Rule("seeded scenarios (first open, apply batches incl. transactions and leader-indexed entries, Sync, close/reopen, snapshot recovery in all 4 format pairs into a non-empty table, stopped recovery); " +
 		"each is run crash-free to count its N mutating FS operations, then with a crash before operation k for every k in 1..N (quick: every k for the small scenarios, stratified sample for the others), plus second crashes during recovery/replay. " +
@@ -537,7 +540,7 @@ func main() {
 	var jobs []job
 	nSmall, nBig := r.Pick(14, 150), r.Pick(8, 250)
 	perBig := r.Pick(60, 150)
-	nHuge := r.Pick(12, 48)
+	nHuge := r.Pick(4, 48)
 	for i := 0; i < nSmall+nBig+nHuge; i++ {
 		small := i < nSmall
 		s := buildScenarioX(r.Seed*1_000_003+int64(i), small, i >= nSmall+nBig)
@@ -584,12 +587,26 @@ func main() {
 	}
 	var wg sync.WaitGroup
 	ch := make(chan job)
-	for w := 0; w < 12; w++ {
+	// crash runs of the big-value scenarios hold tens of MiB each (values, the strict file system
+	// keeps synced and unsynced copies): at most 4 of them at a time, and the heap is trimmed
+	// as they end
+	bigSem := make(chan struct{}, 4)
+	var bigDone atomic.Int64
+	for w := 0; w < 10; w++ {
 		wg.Add(1)
 		go func() {
 			defer wg.Done()
 			for j := range ch {
+				if j.s.Big {
+					bigSem <- struct{}{}
+				}
 				runCrash(r, j.s, j.k, j.second)
+				if j.s.Big {
+					<-bigSem
+					if bigDone.Add(1)%16 == 0 {
+						debug.FreeOSMemory()
+					}
+				}
 			}
 		}()
 	}
